@@ -246,6 +246,15 @@ func (x *Exec) loopEntry(s *State, b *ssa.BasicBlock, ord int) bool {
 			s.assume(t)
 		}
 	}
+	// the state at the head of this iteration, for at(L, e)
+	snap := make(map[string]T, len(s.heap))
+	for k, v := range s.heap {
+		snap[k] = v
+	}
+	if fr.loopHeads == nil {
+		fr.loopHeads = map[int]map[string]T{}
+	}
+	fr.loopHeads[ord] = snap
 	x.applyInstances(s, loopClauses(fc, "apply", ord))
 	var ms []T
 	for _, cl := range decs {
@@ -310,6 +319,10 @@ func (x *Exec) loopBackEdge(s *State, b *ssa.BasicBlock, ord int) {
 // applyInstances assumes instances of defining equations of specification functions
 // (`instance NAME(params) = body` in the contract file) at the arguments given by `apply NAME(args)`.
 func (x *Exec) applyInstances(s *State, cls []*Clause) {
+	x.applyInstancesEnv(s, cls, func() *specEnv { return x.specEnvFor(s, "apply") })
+}
+
+func (x *Exec) applyInstancesEnv(s *State, cls []*Clause, mkEnv func() *specEnv) {
 	for _, cl := range cls {
 		ex, err := parser.ParseExpr(cl.Expr)
 		if err != nil {
@@ -326,9 +339,12 @@ func (x *Exec) applyInstances(s *State, cls []*Clause) {
 			x.unsupported("apply: %s is not declared with `instance`", cl.Expr)
 			continue
 		}
-		env := x.specEnvFor(s, "apply")
+		env := mkEnv()
 		t, err := env.evalBool(cl.Expr)
 		if err != nil {
+			if strings.Contains(err.Error(), "not inside that loop") {
+				continue // at(L, ..) before the first iteration of L
+			}
 			x.unsupported("apply %s: %v", cl.Expr, err)
 			continue
 		}
@@ -741,6 +757,11 @@ func (x *Exec) execInstr(s *State, in ssa.Instruction) {
 		switch u := et.Underlying().(type) {
 		case *types.Struct:
 			x.zeroStruct(s, r, et)
+			if ts := typeStr(et); ts == "bytes.Buffer" || ts == "strings.Builder" {
+				// the zero value of a buffer is empty
+				bufs := x.heapSym(s, "ghost:buf", SArray(SInt, SStr))
+				x.heapSet(s, "ghost:buf", Store(bufs, r, T{"str.empty", SStr}))
+			}
 			s.allocTypes = append(s.allocTypes, allocRec{r, et, x.label(in)})
 			if x.p.isPackageType(et) {
 				s.assume(Eq(mk(SInt, "objtype", r), IntLit(int64(x.p.tag(types.NewPointer(et))))))
@@ -843,6 +864,10 @@ func (x *Exec) execInstr(s *State, in ssa.Instruction) {
 		x.heapSet(s, mk_+":has", Store(has, r, T{fmt.Sprintf("((as const (Array %s Bool)) false)", ks), SArray(ks, SBool)}))
 		sz := x.heapSym(s, mk_+":size", SArray(SInt, x.intSort()))
 		x.heapSet(s, mk_+":size", Store(sz, r, x.ilit(0)))
+		if len(s.frames) == 1 {
+			// a map this function made and keeps to itself is not changed by the functions it calls
+			s.freshArrays = append(s.freshArrays, arrRec{r, mk_ + ":has"}, arrRec{r, mk_ + ":size"}, arrRec{r, mk_ + ":val"})
+		}
 		fr.env[in] = scalar(r)
 	case *ssa.MakeSlice:
 		r := x.alloc(s, "mkslice")
